@@ -437,6 +437,10 @@ func main() {
 	ctx = engine.Start("C19", "exploration")
 	if ctx.ReplayPath != "" {
 		m := ctx.LoadReplay()
+		if m["kind"] == "two-streams" {
+			twoStreams()
+			ctx.Finish("replay")
+		}
 		s, _ := strconv.Unquote(m["stream"].(string))
 		if int(m["stream_len"].(float64)) == len(s) {
 			judgeStream(s, "replay")
